@@ -391,6 +391,29 @@ fn operator_from_name(name: &str) -> Option<BinaryOperator> {
 }
 
 pub(super) fn translate_literal(l: Literal, ctx: &Context) -> Result<sql_ast::Expr> {
+    // verification hook: the literal this call receives, the two answers of the dialect
+    // handler it consults, and the SQL text of the expression it returns (the outermost call
+    // runs the function once more on a clone, inside the guard, and logs that result)
+    #[cfg(prqlc_verif)]
+    if !verif_literal::ACTIVE.with(|a| a.replace(true)) {
+        let verif_in = l.clone();
+        let res = translate_literal(l, ctx);
+        verif_literal::ACTIVE.with(|a| a.set(false));
+        log::debug!(
+            "verif:literal {}",
+            serde_json::json!({
+                "lit": verif_in,
+                "f64_bits": match &verif_in {
+                    Literal::Float(f) => Some(format!("{:016x}", f.to_bits())),
+                    _ => None,
+                },
+                "sqlite": ctx.dialect.is::<crate::sql::dialect::SQLiteDialect>(),
+                "bs": ctx.dialect.string_literal_backslash_escape(),
+                "out": res.as_ref().ok().map(|e| e.to_string()),
+            })
+        );
+        return res;
+    }
     Ok(match l {
         Literal::Null => sql_ast::Expr::Value(Value::Null.into()),
         Literal::String(s) | Literal::RawString(s) => {
@@ -1281,5 +1304,14 @@ mod test {
         ");
 
         Ok(())
+    }
+}
+
+/// Verification hook state (never compiled in normal builds): re-entrancy flag of the
+/// `verif:literal` hook in `translate_literal`.
+#[cfg(prqlc_verif)]
+mod verif_literal {
+    thread_local! {
+        pub static ACTIVE: std::cell::Cell<bool> = const { std::cell::Cell::new(false) };
     }
 }
